@@ -40,7 +40,7 @@ def plan_batches(steps, R, P, faulty):
     n_batches = R.choice([1, 1, 2, 3])
     for _ in range(n_batches):
         sel = list(usable)
-        kind = R.choice(['plain', 'plain', 'plain', 'no-create', 'two-creates', 'two-deletes', 'no-delete', 'foreign', 'empty', 'subset'])
+        kind = R.choice(['plain', 'plain', 'plain', 'no-create', 'two-creates', 'two-deletes', 'no-delete', 'foreign', 'empty', 'subset', 'dup-entry'])
         if not faulty and R.random() < 0.5:
             kind = 'plain'
         if kind == 'no-create':
@@ -65,6 +65,9 @@ def plan_batches(steps, R, P, faulty):
                 sel.append(extra({'type': t, 'ro_id': other, 'payload': pay}))
             else:
                 sel.append(extra({'type': t, 'ro_id': other}))
+        elif kind == 'dup-entry' and sel:
+            # the same file / string supplied twice: two messages, whatever the path says
+            sel.append(R.choice(sel))
         elif kind == 'empty':
             sel = []
         elif kind == 'subset' and sel:
@@ -80,11 +83,14 @@ def plan_batches(steps, R, P, faulty):
             perms.append(o2)
         perms.append(list(range(len(sel))))
         perms.append(list(reversed(range(len(sel)))))
+        ctor = R.choice(['files', 'strings', 'strings-bytes', 's3'])
+        if kind == 'dup-entry':
+            ctor = R.choice(['files', 'strings', 'strings-bytes'])      # a bucket holds one object per key
         steps.append({'k': 'batch', 'select': [sel[i] for i in order], 'kind': kind,
-                      'ctor': R.choice(['files', 'strings', 'strings-bytes', 's3']),
+                      'ctor': ctor,
                       'allow_incomplete': R.random() < 0.5, 'strict': R.random() < 0.5,
-                      'perms': perms, 'cross': R.random() < 0.5,
-                      'page_size': R.randint(1, 7), 'noise_keys': R.random() < 0.4, 'slots': R.random() < 0.5})
+                      'perms': perms, 'cross': R.random() < 0.5 and kind != 'dup-entry',
+                      'page_size': R.randint(1, 7), 'noise_keys': R.random() < 0.4, 'slots': R.random() < 0.5 and kind != 'dup-entry'})
 
 
 def plan_listing(steps, R, P, faulty):
@@ -92,7 +98,8 @@ def plan_listing(steps, R, P, faulty):
         n = R.choice([0, 0, 1, 2, 3, 5, 8, 13, 21])
         keys = []
         for i in range(n):
-            name = R.choice(['%d-x' % R.randint(1, 99999), 'f%03d' % i, 'dir/f%d' % i, 'ü%d' % i, 'x y %d' % i])
+            name = R.choice(['%d-x' % R.randint(1, 99999), 'f%03d' % i, 'dir/f%d' % i, 'ü%d' % i, 'x y %d' % i,
+                             '2020-01-0%dT10+0100' % (i % 9 + 1), '100%%25-%d' % i, 'a%%41b%%2B%d' % i])
             suffix = R.choice(['.mos.xml', '.mos.xml', '.mos.xml', '.xml', '', '.mos.xml.bak', '.MOS.XML'])
             keys.append(name + suffix)
         prefix = R.choice(['lst/', 'lst/', 'lst', '', None, 'lst/dir/', 'nothing-here/'])
@@ -181,16 +188,16 @@ def _fold(ents_sorted, create_ent):
     failing = []
     _fold.elem_warnings = []          # per message: categories of the element-level warnings
     msgs = [MT.MosFile.from_string(e['text'] if e['text'] is not None else e['data']) for e in ents_sorted]
-    for e, m in zip(ents_sorted, msgs):
+    for pos, (e, m) in enumerate(zip(ents_sorted, msgs)):
         with warnings.catch_warnings(record=True) as w:
             warnings.resetwarnings()
             warnings.simplefilter('always')
             try:
                 ro = ro + m
             except MX.MosMergeError as ex:
-                failing.append((e['mid'], type(ex).__name__))
+                failing.append((e['mid'], type(ex).__name__, pos))
             except Exception as ex:    # noqa
-                return states, failing, (e['mid'], type(ex).__name__)
+                return states, failing, (e['mid'], type(ex).__name__, pos)
         _fold.elem_warnings.append(sorted(x.category.__name__ for x in w if issubclass(x.category, MX.MosRoMgrWarning)))
         states.append(str(ro))
     return states, failing, None
@@ -315,20 +322,20 @@ def do_batch(run, step):
     fold_elem_warnings = list(_fold.elem_warnings)
     run.stats['batch.merged'] += 1
     run.cov.add(('merge', strict, min(len(failing), 4), bool(crash)))
-    if crash and strict and failing and mids.index(failing[0][0]) < mids.index(crash[0]):
+    if crash and strict and failing and failing[0][2] < crash[2]:
         crash = None        # a strict merge legitimately stops at the first merge error, before that message
     if crash:
         # a built-in exception inside a merge: C12 - the non-strict merge cannot run to the end
         if exc_m is None or isinstance(exc_m, MX.MosRoMgrException):
-            add('C09.fold', 'adding message %r one by one raises %s, the collection merge did not' % crash)
+            add('C09.fold', 'adding message %r one by one raises %s, the collection merge did not' % crash[:2])
         if not strict:
             add('C12.progress', 'non-strict collection merge stopped at message %r with %s' % (crash[0], type(exc_m).__name__))
         return
     # ---- C06 in collection mode: the element-level warnings are those of adding one by one ---------
-    upto = mids.index(failing[0][0]) + 1 if (strict and failing) else len(mids)
+    upto = failing[0][2] + 1 if (strict and failing) else len(mids)
     want_w = sorted(c for ws in fold_elem_warnings[:upto] for c in ws)
     # only when the collection merged the same messages to the same state are differing warnings a defect of their own
-    same_state = sorted(got_ids) == mids and final == (states[mids.index(failing[0][0])] if (strict and failing) else states[-1])
+    same_state = sorted(got_ids) == mids and final == (states[failing[0][2]] if (strict and failing) else states[-1])
     if not same_state:
         n_completed_gate = False
     else:
@@ -343,7 +350,7 @@ def do_batch(run, step):
         if not strict and exc_m is None and 0 < len(failing) - n_nsw <= n_completed:
             add('C07.terminal', 'non-strict collection merge: %d message(s) after the roDelete, %d of %d refusals reported' % (n_completed, n_nsw, len(failing)))
     if strict and failing:
-        k = mids.index(failing[0][0])
+        k = failing[0][2]
         if exc_m is None:
             add('C09.strict', 'strict merge swallowed the error of message %r' % failing[0][0])
         elif type(exc_m).__name__ != failing[0][1]:
